@@ -8,6 +8,8 @@ package rpc
 // NetworkInstrumenterStorage) is recorded as an ordered event list.
 
 import (
+	"bytes"
+	"compress/gzip"
 	"errors"
 	"fmt"
 	"io"
@@ -21,6 +23,7 @@ import (
 	"time"
 
 	"github.com/keybase/go-codec/codec"
+	"github.com/keybase/msgpackzip"
 	"golang.org/x/net/context"
 )
 
@@ -642,6 +645,34 @@ func (e *vEngine) op(f []string) {
 			}
 			return e.conn.numWrites() > before && e.ev.count("log/ClientCall/") > 0
 		})
+	case "calltyped": // calltyped/<cid>/<meth hex>/<arg>: the result is decoded into a struct {A int; B int}
+		cs := &vCallState{id: f[1], done: make(chan struct{}), res: new(interface{})}
+		ctx, cancel := e.ctxFor("-")
+		cs.cancel = cancel
+		e.calls[f[1]] = cs
+		meth := string(vUnhex(f[2]))
+		arg := vParse(f[3])
+		before := e.conn.numWrites()
+		e.ev.add("callstart/%s", f[1])
+		go func() {
+			var typed struct {
+				A int
+				B int
+			}
+			err := e.cli.Call(ctx, meth, arg, &typed, 0)
+			*cs.res = []interface{}{int64(typed.A), int64(typed.B)}
+			cs.snap = vPrint(*cs.res)
+			e.ev.add("ret/%s/%s/%s", f[1], vErrClass(err), cs.snap)
+			close(cs.done)
+		}()
+		e.waitFor("call-written-or-returned", func() bool {
+			select {
+			case <-cs.done:
+				return true
+			default:
+			}
+			return e.conn.numWrites() > before
+		})
 	case "notify": // notify/<cid>/<meth>/<arg>/<tagspec>/<timeout ms>
 		cs := &vCallState{id: f[1], done: make(chan struct{})}
 		ctx, cancel := e.ctxFor(f[4])
@@ -854,7 +885,11 @@ func (e *vEngine) op(f []string) {
 			if len(f) > 2 {
 				res = f[2]
 			}
-			e.feedResponse(seq, want, res)
+			ct := 0
+			if len(f) > 3 {
+				ct, _ = strconv.Atoi(f[3])
+			}
+			e.feedResponseC(seq, want, res, ct)
 		}
 	case "replytonowait": // like replyto but only if the call frame is already on the wire
 		e.conn.mu.Lock()
@@ -1175,6 +1210,20 @@ func vCallFrameSeq(w []byte) (int64, string, bool) {
 	if t == 4 && len(arr) >= 5 {
 		arg = arr[4]
 	}
+	if z, ok := arg.([]byte); ok && t == 4 && len(z) > 0 {
+		// compressed argument: inflate it (gzip, else msgpackzip) to find the nonce
+		var plain []byte
+		if r, err := gzip.NewReader(bytes.NewReader(z)); err == nil {
+			plain, _ = io.ReadAll(r)
+		}
+		if plain == nil {
+			plain, _ = msgpackzip.Inflate(z)
+		}
+		var v interface{}
+		if plain != nil && codec.NewDecoderBytes(plain, h).Decode(&v) == nil {
+			arg = v
+		}
+	}
 	if a, ok := arg.([]interface{}); ok && len(a) > 0 {
 		if n, ok := toI(a[0]); ok {
 			return q, strconv.FormatInt(n, 10), true
@@ -1183,8 +1232,12 @@ func vCallFrameSeq(w []byte) (int64, string, bool) {
 	return q, "", true
 }
 
-// feedResponse: [1, seq, nil, a[i:nonce, b:]] (or the given result text) from the peer
-func (e *vEngine) feedResponse(seq int64, nonce string, res string) {
+func (e *vEngine) feedResponse(seq int64, nonce string, res string) { e.feedResponseC(seq, nonce, res, 0) }
+
+// feedResponseC: [1, seq, nil, a[i:nonce, b:]] (or the given result text) from the peer; for ctype gzip (1) /
+// msgpackzip (2) the result travels as the compressed msgpack encoding, produced with compress/gzip / msgpackzip
+// directly (not with the package's pooled compressors)
+func (e *vEngine) feedResponseC(seq int64, nonce string, res string, ctype int) {
 	var v interface{}
 	if res == "-" {
 		n, _ := strconv.ParseInt(nonce, 10, 64)
@@ -1194,6 +1247,22 @@ func (e *vEngine) feedResponse(seq int64, nonce string, res string) {
 	}
 	h := &codec.MsgpackHandle{WriteExt: true, RawToString: true}
 	var content, prefix []byte
+	if ctype == 1 || ctype == 2 {
+		var plain []byte
+		_ = codec.NewEncoderBytes(&plain, h).Encode(v)
+		if ctype == 1 {
+			var buf bytes.Buffer
+			zw := gzip.NewWriter(&buf)
+			_, _ = zw.Write(plain)
+			_ = zw.Close()
+			v = buf.Bytes()
+		} else {
+			z, err := msgpackzip.Compress(plain)
+			if err == nil {
+				v = z
+			}
+		}
+	}
 	_ = codec.NewEncoderBytes(&content, h).Encode([]interface{}{1, seq, nil, v})
 	_ = codec.NewEncoderBytes(&prefix, h).Encode(len(content))
 	b := append(prefix, content...)
